@@ -225,6 +225,15 @@ def run(ctx):
                 n_ = 2 if cls in ('Hessdiag', 'Hessian') else 1
                 th, fs, hs = make_call(nd, cls, m, n_, 2, 2, False, False, steps=tiny)
                 check('no non-zero step', th, 'outcome %s %s %d 2 0 0 %d %d 0' % (cls, m, n_, fs, hs), True, cls=cls, method=m, step=tiny)
+    # ... also when the base step is given per variable and only one of the variables has no usable step (the step of a sequence is a
+    # vector: one vanishing component makes the whole step unusable, so no step is left)
+    for cls in CLASSES:
+        for m in ('central', 'forward', 'complex'):
+            for vec in ([1e-3, 1e-19], [0.0, 1e-3], [1e-17, 0.25]):
+                n_ = 2 if cls in ('Hessdiag', 'Hessian') else 1
+                th, fs, hs = make_call(nd, cls, m, n_, 2, 2, False, False, steps=np.array(vec))
+                check('no non-zero step (per-variable base step with one vanishing entry)', th,
+                      'outcome %s %s %d 2 0 0 %d %d 0' % (cls, m, n_, fs, hs), True, cls=cls, method=m, step=vec)
     # wrong number of values (for a single input element several values are legitimate: R -> R^k)
     for dim in (2, 3, 5):
         for m in ('central', 'forward', 'complex'):
